@@ -11,7 +11,7 @@ RULE = ("records = one column each: strictly monotonic integer target_data profi
         "the log-space weight is the same rational), through the kernel and through Grid.transform with bare-array, 1-D "
         "and N-D targets, custom suffix, extra dims in both orders, dask chunking; non-trivial = distinct "
         "(theta, levels, options, route)"
-        ' Also: target values under affine maps, target_data left at its default (the axis coordinate, input with or without it), integer / float32 target_data, 1-D targets with foreign index labels, data with one more dimension than target_data, an earlier transform on the same Grid, the level 0 under method log.')
+        ' Also: target values under affine maps, target_data left at its default (the axis coordinate, input with or without it), integer / float32 target_data, 1-D targets with foreign index labels, data with one more dimension than target_data, an earlier transform on the same Grid, the level 0 under method log, the columns laid out over two extra dimensions listed in different orders on the data and on target_data.')
 
 
 def mono(rng, n, T):
@@ -64,10 +64,15 @@ def execute(job):
                 if job.get("row_last"):
                     da = da.transpose(..., N("row"))
             td = xr.DataArray(real_th if first else real_th.T, dims=dims, name=N("theta"))
+            # the columns laid out over TWO extra dimensions, listed in one order on the data and in another on target_data
+            shape2 = {2: (2, 1), 3: (1, 3), 4: (2, 2)}.get(ncol) if job.get("split") and nrow == 1 and job["target"] != "nd" and not job.get("td_default") else None
+            if shape2:
+                da = xr.DataArray(phis.reshape(shape2 + (n,)), dims=(N("ca"), N("cb"), N("zc")), name=N("phi")).transpose(*rng.sample([N("ca"), N("cb"), N("zc")], 3))
+                td = xr.DataArray(real_th.reshape(shape2 + (n,)), dims=(N("ca"), N("cb"), N("zc")), name=N("theta")).transpose(*rng.sample([N("ca"), N("cb"), N("zc")], 3))
             if job.get("tdtype"):
                 td = td.astype(job["tdtype"])          # integer-valued profiles: exact in every dtype used
             if job["chunk"]:
-                da, td = da.chunk({N("col"): 1}), td.chunk({N("col"): 1})
+                da, td = (da.chunk({N("ca"): 1}), td.chunk({N("cb"): 1})) if shape2 else (da.chunk({N("col"): 1}), td.chunk({N("col"): 1}))
             kw = {"method": job["method"], "mask_edges": job["mask"], "bypass_checks": job["bypass"]}
             exp_name = "phi" + (job["suffix"] if job["suffix"] is not None else "_transformed")
             if job["suffix"] is not None:
@@ -96,6 +101,9 @@ def execute(job):
                 res = grid.transform(da_, N("Z"), target, **kw)
             else:
                 res = grid.transform(da, N("Z"), target, target_data=td, **kw)
+            if shape2:
+                nd_ = [d for d in res.dims if d not in (N("ca"), N("cb"))]
+                res = res.transpose(N("ca"), N("cb"), *nd_).stack({N("col"): (N("ca"), N("cb"))}).reset_index(N("col"), drop=True)
             nd = [d for d in res.dims if d != N("col")]
             newdim = INV.get(nd[0], nd[0]) if len(nd) == 1 else str(nd)
             name = "none" if res.name is None else str(res.name)
@@ -191,7 +199,8 @@ def gen_jobs(rng, thorough):
         jobs.append({"via": via, "method": method, "thetas": thetas, "phis": [[rng.randint(-6, 6) for _ in range(n)] for _ in range(ncol)],
                      "affine": list(affine), "tdtype": tdtype, "labels": rng.choice(["values", "numbers", "none"]),
                      "da_coords": rng.random() < 0.5, "da_extra": da_extra, "row_last": rng.random() < 0.5, "levels": lv, "mask": rng.random() < 0.5, "bypass": bypass, "ids": ids, "seed": cid, "target": target,
-                     "suffix": rng.choice([None, None, "_x", ""]), "chunk": rng.random() < 0.4, "extra_first": rng.random() < 0.5, "td_default": td_default})
+                     "suffix": rng.choice([None, None, "_x", ""]), "chunk": rng.random() < 0.4, "extra_first": rng.random() < 0.5, "td_default": td_default,
+                     "split": rng.random() < 0.3})
     return jobs
 
 
